@@ -6,7 +6,7 @@ import core
 ID = "C20"
 GEN = []
 RULE = ("pairs of Ed25519 seeds with both byte orders of the derived ids and equal ids, plaintexts of length 0..2000; "
-        "sign/verify with altered message, key and signature; generated mnemonics; non-trivial = any pair; distinct "
+        "sign/verify with altered message, key and signature; generated mnemonics (seeded os.urandom), their validity recomputed with hmac/pbkdf2, deterministic key derivation equal to the TON derivation; non-trivial = any pair; distinct "
         "by seeds and plaintext")
 TRUSTED = [
     "Coq 8.16.1 kernel; no native_compute",
@@ -87,9 +87,9 @@ def run(ctx):
         r = core.call_impl(lambda _: sign_check(rng), None)
         if r != "ok":
             ctx.fail("signature-glue", r, {"sign": r})
-    nm = ctx.n(3, 50)
-    for _ in range(nm):
-        r = core.call_impl(lambda _: mnemonic_check(), None, timeout_s=120)
+    nm = ctx.n(40, 400)
+    for k in range(nm):
+        r = core.call_impl(lambda _: mnemonic_check(rng.getrandbits(64), derive=k < ctx.n(4, 20)), None, timeout_s=120)
         if r != "ok":
             ctx.fail("mnemonic", r, {"mnemonic": r})
     ctx.extra["mnemonics"] = nm
@@ -134,11 +134,37 @@ def sign_check(rng):
     return "ok"
 
 
-def mnemonic_check():
-    from pytoniq_core.crypto.keys import mnemonic_new, mnemonic_is_valid, mnemonic_to_wallet_key
-    ws = mnemonic_new()
-    if len(ws) != 24 or not mnemonic_is_valid(ws):
-        return "generated mnemonic is not valid"
+def mnemonic_check(seed, derive=False):
+    """mnemonic_new with os.urandom replaced by a seeded stream (reproducible); validity recomputed independently with
+    hmac/pbkdf2; key derivation deterministic and equal to the TON derivation written out with hashlib + nacl"""
+    import hmac
+    import random
+    from unittest import mock
+    from pytoniq_core.crypto import keys
+    r = random.Random(seed)
+    with mock.patch.object(keys.os, "urandom", lambda n: r.randbytes(n)):
+        ws = keys.mnemonic_new()
+    if len(ws) != 24 or any(w not in keys.words for w in ws):
+        return f"generated mnemonic has {len(ws)} words / unknown words"
+    entropy = hmac.new(" ".join(ws).encode(), b"", hashlib.sha512).digest()
+    if hashlib.pbkdf2_hmac("sha512", entropy, b"TON seed version", 390)[0] != 0:
+        return "generated mnemonic fails the basic-seed test"
+    if not keys.mnemonic_is_valid(ws):
+        return "generated mnemonic is not valid according to mnemonic_is_valid"
+    if keys.mnemonic_is_valid(ws[:23]) or keys.mnemonic_is_valid(ws + ["abandon"]):
+        return "mnemonic_is_valid accepts a 23/25-word mnemonic"
+    if derive:
+        from nacl.signing import SigningKey
+        k1, k2 = keys.mnemonic_to_private_key(ws), keys.mnemonic_to_private_key(list(ws))
+        if k1 != k2 or keys.mnemonic_to_wallet_key(ws) != keys.mnemonic_to_wallet_key(ws):
+            return "key derivation is not deterministic"
+        seed32 = hashlib.pbkdf2_hmac("sha512", entropy, b"TON default seed", 100000)[:32]
+        sk = SigningKey(seed32)
+        pub, sec = k1
+        if bytes(pub) != bytes(sk.verify_key) or bytes(sec) != seed32 + bytes(sk.verify_key):
+            return "mnemonic_to_private_key is not Ed25519(pbkdf2(hmac(mnemonic), 'TON default seed')[:32])"
+        if keys.private_key_to_public_key(sec) != bytes(pub):
+            return "private_key_to_public_key disagrees with the derived pair"
     return "ok"
 
 
